@@ -226,6 +226,13 @@ def run(ctx: Ctx):
                          f"has been queued for transmission: for an answer sent from handle_request "
                          f"the exception reaches the error handler of _receive_message, which "
                          f"transmits a second (5012) answer for the same request", steps=why)
+    from . import c17
+    ctx.include(c17.run, {"C17-R3"}, "C07-R3c",
+                "the request's origin recorded for the bookkeeping that runs after an answer is "
+                "queued is a bytes value (a list-valued Origin-Host of an untyped message raises "
+                "there and the error handler answers the request a second time)", floor=3,
+                constructs=lambda c: "origin-is-bytes" in c)
+    ctx.cur("C07-R3")
     # in _receive_message itself: sends inside the try body would be followed by handler send
     g = R.g
     for s in R.sends:
